@@ -13,7 +13,8 @@ LEVEL_TEXT = ('Held on the programs observed: tifa_analysis is run on real-world
               'and leaves len(report.feedback) unchanged, that a fresh report yields the same multiset, and that every issue line lies '
               'within the analysed source. For the introductory subset the analysis must be a completed one (success True): one '
               'program per builtin function and per public method of int/float/str/list/dict/tuple/set with plausible arguments, '
-              'imports of standard modules, plus the generated programs.')
+              'imports of standard modules, dictionaries with values of several kinds, plus the generated programs; the same code on a fresh '
+              'report after a program that assigned to a module attribute.')
 LEVEL_NOTE = ('Files on which CPython\'s own parser fails are not "syntactically valid" and are skipped. The completes part is '
               'judged only on the introductory subset (generated CS1 programs and the builtin/method sweep), not on corpus files.')
 RULE = ('Distinct = distinct source text; non-trivial = a program with at least one statement beyond a bare expression, or a '
